@@ -742,14 +742,17 @@ func (vm *VirtualMachine) eval(ctx context.Context) error {
 			}
 			for _, name := range names {
 				// check if the name matches a module
-				module, err := vm.importModule(ctx, filepath.Join(filepath.Join(from...), name))
+				modulePath := filepath.Join(filepath.Join(from...), name)
+				module, err := vm.importModule(ctx, modulePath)
 				if err == nil {
 					vm.push(module)
 				} else {
 					// A module of that name that exists and fails is an error
 					// like any other: its code has run, in part
 					var unavailable *moduleUnavailableError
-					if !errors.As(err, &unavailable) {
+					if !errors.As(err, &unavailable) || unavailable.name != modulePath {
+						// (also when it fails because a module that it imports
+						// in turn is not available)
 						return err
 					}
 					// otherwise, the name is a symbol inside a module
@@ -1198,7 +1201,9 @@ func (vm *VirtualMachine) reloadCode(main *compiler.Code) *code {
 // An error of any other kind from importModule comes from running the
 // module's code.
 type moduleUnavailableError struct {
-	err error
+	// name is the module that was asked for
+	name string
+	err  error
 }
 
 func (e *moduleUnavailableError) Error() string { return e.err.Error() }
@@ -1210,7 +1215,7 @@ func (vm *VirtualMachine) importModule(ctx context.Context, name string) (*objec
 		return module, nil
 	}
 	if vm.importer == nil {
-		return nil, &moduleUnavailableError{err: fmt.Errorf("imports are disabled")}
+		return nil, &moduleUnavailableError{name: name, err: fmt.Errorf("imports are disabled")}
 	}
 	// A module that is imported again while its own code is still running
 	// (two modules that import each other) would run again, and again
@@ -1219,7 +1224,7 @@ func (vm *VirtualMachine) importModule(ctx context.Context, name string) (*objec
 	}
 	module, err := vm.importer.Import(ctx, name)
 	if err != nil {
-		return nil, &moduleUnavailableError{err: err}
+		return nil, &moduleUnavailableError{name: name, err: err}
 	}
 	if vm.importing == nil {
 		vm.importing = map[string]bool{}
